@@ -6,6 +6,7 @@ from typing import Any, Dict, List, Tuple
 import rapidjson as json
 
 from ..typing import AnyPath, LoadSource
+from ..utils import ensure_open
 from ._pauli_operators import PauliRepresentation, PauliSum, PauliTerm
 
 
@@ -76,11 +77,8 @@ def load_operator(file: LoadSource) -> PauliSum:
         op: the operator.
     """
 
-    if isinstance(file, str):
-        with open(file, "r") as f:
-            data = json.load(f)
-    else:
-        data = json.load(file)
+    with ensure_open(file) as f:
+        data = json.load(f)
 
     return convert_dict_to_op(data)
 
@@ -109,11 +107,8 @@ def load_operator_set(file: LoadSource) -> List[PauliSum]:
     Returns:
         operator_set: a list of QubitOperator objects
     """
-    if isinstance(file, str):
-        with open(file, "r") as f:
-            data = json.load(f)
-    else:
-        data = json.load(file)
+    with ensure_open(file) as f:
+        data = json.load(f)
 
     operator_set = []
     for operator_dict in data["operators"]:
